@@ -657,4 +657,68 @@ def Timer.strRowsPinned (lt : L → L → Bool) (T : Timer L) (t : Nat) : Option
 
 end
 
+/-! ## `IterationStats`: what is printed -/
+
+/-- the display-related arguments of `IterationStats.__init__` (`period ≥ 1`; `period = 0` makes
+    `insert` raise `ZeroDivisionError` and is outside the model) -/
+structure DisplayOpts where
+  display : Bool := false
+  period : Nat := 1
+  shiftCycles : Bool := true
+  overwrite : Bool := true
+deriving Repr, DecidableEq
+
+/-- what `insert` / `end` write to stdout -/
+inductive PrintEv where
+  /-- the two header lines (`print(self.disphdr)`) -/
+  | header
+  /-- the formatted record number `n` (0-based position in `iterations`), terminated by `"\n"`
+      (`nl = true`) or by `"\r"` -/
+  | row (n : Nat) (nl : Bool)
+  /-- the bare `print()` of `end()` -/
+  | newline
+deriving Repr, DecidableEq
+
+/-- `self.period_offset` -/
+def DisplayOpts.offset (o : DisplayOpts) : Nat := if o.shiftCycles then 1 else 0
+
+/-- `(len(self.iterations) - self.period_offset) % self.period == 0` (Python `%` with a positive
+    divisor is the Euclidean remainder, also for the negative left operand `0 - 1`) -/
+def cycleEnd (o : DisplayOpts) (len : Nat) : Bool :=
+  ((len : Int) - (o.offset : Int)) % (o.period : Int) == 0
+
+/-- display state of an `IterationStats` object -/
+structure Disp where
+  /-- `len(self.iterations)` -/
+  len : Nat
+  /-- `self.disphdr is not None` -/
+  hdrPending : Bool
+  /-- everything printed so far -/
+  out : List PrintEv
+deriving Repr, DecidableEq
+
+def Disp.init (o : DisplayOpts) : Disp := ⟨0, o.display, []⟩
+
+/-- the printing part of `IterationStats.insert` (the record itself is appended by `statsInsert`) -/
+def dispInsert (o : DisplayOpts) (s : Disp) : Disp :=
+  let len := s.len + 1
+  if !o.display then { s with len := len }
+  else
+    let out := if s.hdrPending then s.out ++ [.header] else s.out
+    let out :=
+      if o.overwrite then out ++ [.row s.len (cycleEnd o len)]
+      else if cycleEnd o len then out ++ [.row s.len true] else out
+    ⟨len, false, out⟩
+
+/-- `IterationStats.end()` -/
+def dispEnd (o : DisplayOpts) (s : Disp) : Disp :=
+  if o.display && o.overwrite && decide (o.period > 1) && !(cycleEnd o s.len) then
+    { s with out := s.out ++ [.newline] }
+  else s
+
+/-- `k` insertions -/
+def dispInserts (o : DisplayOpts) : Nat → Disp → Disp
+  | 0, s => s
+  | k + 1, s => dispInserts o k (dispInsert o s)
+
 end Scico.Driver
